@@ -299,7 +299,7 @@ type NestedCase struct {
 	Inner  uint64 `json:"inner_limit"`
 	Outer  uint64 `json:"outer_limit"`
 	Steps  []Step `json:"steps"`
-	Reads  []int  `json:"reads"`  // buffer sizes
+	Reads  []int  `json:"reads"`     // buffer sizes
 	ViaOut []bool `json:"via_outer"` // per read: through the outer (true) or the inner reader
 }
 
